@@ -34,6 +34,7 @@ func init() {
 			ruleSingleGrouping(r)
 			ruleNoStdUnquote(r)
 			ruleIdentPredicates(r) // which names the parser accepts as labels (regexp capture names, label_format targets)
+			ruleKeywordLookupExact(r)
 		},
 	})
 }
